@@ -388,6 +388,8 @@ class Check:
         self.cov["axioms"] = pr["axioms"] or ["none (every Print Assumptions: Closed under the global context)"]
         self.cov["print_assumptions_closed"] = pr["closed"]
         self.cov["checker_cmd"] = f"make -C coq Props/{self.prop}.vo  (coqc 8.16.1, full .vo build)"
+        if pr["ok"] and self.tier == "thorough" and not os.environ.get("VERIF_NO_COQCHK"):
+            self.coqchk()
         if not pr["ok"]:
             self.violation({
                 "kind": "proof-obligation-broken",
@@ -395,6 +397,19 @@ class Check:
                 "audit": pr["audit"], "log": pr["log"],
             }, no_input=True)
         return pr
+
+    def coqchk(self, timeout: int = 1500):
+        """Thorough tier: re-check Props/<prop>.vo and everything it depends on with the independent checker."""
+        t0 = time.time()
+        p = subprocess.run(["timeout", str(timeout), "coqchk", "-o", "-silent", "-Q", str(COQ), "JMCV", f"JMCV.Props.{self.prop}"],
+                           cwd=COQ, stdout=subprocess.PIPE, stderr=subprocess.STDOUT)
+        out = p.stdout.decode(errors="replace")
+        m = re.search(r"\* Axioms:(.*?)\n\s*\n\* Constants", out, re.S)
+        axioms = [a.strip() for a in (m.group(1).split("\n") if m else []) if a.strip()]
+        self.cov["coqchk"] = {"rc": p.returncode, "axioms": axioms, "wall_s": round(time.time() - t0, 1),
+                              "summary": out[-700:]}
+        if p.returncode != 0:
+            self.violation({"kind": "coqchk-failed", "log": out[-3000:]}, no_input=True)
 
     def finish(self, level: str = "proof") -> int:
         self.cov.setdefault("trusted_base", [])
